@@ -91,8 +91,8 @@ CLAIMED["C08"] = dict(
 )
 CLAIMED["C09"] = dict(
     text="Proof (Lean 4): the pending-signal slot after any sequence of signalling transitions excludes x exactly when all came from x (however many) and is All once two distinct machines signalled; the delivery round visits every machine "
-         "except a lone signaller exactly once in index order and the lone signaller once afterwards iff the round raised a new signal (no machine twice). That each visit is one delivered Signal in the implementation is checked by the monitor on the "
-         "hooked internal log and by the correspondence, not by a theorem.",
+         "except a lone signaller exactly once in index order and the lone signaller once afterwards iff the round raised a new signal; counted on the model's ghost copy of the hook log, no machine receives more than one Signal per call "
+         "and processing reported events delivers none. The implementation is tied to this by the correspondence of the internal log and by the monitor from the property text.",
     ref="5 (C09)",
     technique="Lean 4 theorems on the signal slot algebra and the unfolding of the delivery round + spec monitor on the implementation's internal log + differential correspondence",
 )
@@ -102,6 +102,29 @@ CLAIMED["C10"] = dict(
          "differentially (combined vs solo run of a draw-independent probe on the projected history) on the implementation and the model.",
     ref="5 (C10)",
     technique="Lean 4 frame theorems over primitive steps (partial: frame half) + differential combined-vs-solo runs on the implementation + correspondence",
+)
+
+CLAIMED["C06"] = dict(
+    text="Proof (Lean 4) over ALL 2^23 outcomes of the uniform draw, symbolically (a counting lemma, no enumeration): for every validated probability vector the number of outcomes selecting target i is exactly "
+         "ceil(c_i 2^23) - ceil(c_{i-1} 2^23) for the f32 running sums c_i the code computes (monotone, proved via rne_mono), the remainder selects nothing, each share is within 2^-23 + 2^-24 of p_i, probability 1 is always taken, "
+         "no vector never moves the machine; the w >> 9 bit model of rand's f32 draw is proved and validated exhaustively. Correspondence: State::sample_state under a counting RNG, boundary words in the quick tier, all 2^23 words for sets of vectors in both tiers.",
+    ref="5 (C06)",
+    technique="Lean 4 counting theorem over the whole draw space on the Rat-based IEEE model + exhaustive differential enumeration of all 2^23 draw outcomes against the closed form",
+)
+CLAIMED["C12"] = dict(
+    text="Proof (Lean 4): Validate.machine m = true implies an independently written well-formedness predicate WF m (fractions real in [0,1], 0 < states <= STATE_MAX, targets existing or pseudo and distinct, probabilities real in (0,1] with f32 sum <= 1, "
+         "every distribution's parameters valid per family), for the model of today's code (NaN-rejecting comparisons since fix 65165a2; for the previous comparisons the negation is proved with replayable NaN witnesses); from_str and Framework::new factor through the same "
+         "judgement and Framework construction from accepted machines does not fault. Correspondence on adversarial machines through validate / Machine::new / from_str / Framework::new; monitor WF on whatever the implementation accepts.",
+    ref="6 (C12)",
+    technique="Lean 4 soundness proof of the validation model against an independent WF predicate + differential correspondence on adversarial numbers and crafted encodings + WF monitor",
+)
+CLAIMED["C13"] = dict(
+    text="Proof (Lean 4), for every raw sampler output, start and max (NaN and infinities included): the clamped sample is never NaN, >= 0 and <= max when set; timeouts/durations <= 24 h, limits and counter operands < 2^64; every rand_distr constructor call made by "
+         "dist_sample succeeds for validated parameters (none of the 11 unwraps nor the gen_range assertions can fire); rand's f64 uniform retry loop is modelled exactly, its result is < high and the all-zero word terminates it. Termination inside rand_distr's samplers is "
+         "outside the model: supervised runs (watchdog) on all families at validated corners under scripted prefixes are supporting evidence only.",
+    ref="6 (C13)",
+    technique="Lean 4 theorems on the clamp/cast model for arbitrary sampler outputs + exact model of rand's uniform f64/f32 conversion + differential correspondence with watchdog-supervised sampling",
+    note="Trusted in addition: rand_distr sampler internals (ziggurat, BTPE, rejection loops) are a parameter (raw value) of the model; their termination is watchdog evidence, not a theorem.",
 )
 
 PENDING = {}
